@@ -218,6 +218,20 @@ static void judge(W& w, const Sys& s, const std::string& where)
                 w.fail("status:interface-entry-is-not-the-latest-packet", where + fmt(": device %u interface %u stores ", kDev[d], kIf[i]) + obs::show(gi) + " latest is " + obs::show(P.oif[d][i][iv]));
         }
     }
+    // the non-const accessors must hand out the very same objects as the const ones
+    {
+        Status& ms = const_cast<Status&>(st);
+        for (size_t i = 0; i < n; ++i)
+        {
+            DeviceStatus& md = ms.getDeviceStatus(i);
+            const DeviceStatus& cd = st.getDeviceStatus(i);
+            if (&md != &cd || &md.getPacket() != &cd.getPacket())
+                w.fail("status:non-const-accessor-returns-other-object", where + fmt(": device entry %zu", i));
+            for (size_t j = 0; j < cd.getInterfaceStatusCount(); ++j)
+                if (&md.getInterfaceStatus(j) != &cd.getInterfaceStatus(j) || &md.getInterfaceStatus(j).getPacket() != &cd.getInterfaceStatus(j).getPacket())
+                    w.fail("status:non-const-accessor-returns-other-object", where + fmt(": device entry %zu interface entry %zu", i, j));
+        }
+    }
     // an id that never occurs
     if (st.getIndexByDeviceId(0x7777) != n)
         w.fail("status:lookup-of-absent-device", where + ": unknown device id does not map to the element count");
